@@ -18,6 +18,8 @@
 #include "opcodes/common.h"
 #include "operators/ops.h"
 #include "operators/ops_hashmap.h"
+#include "operators/d_config.h"
+#include "runtime/confighost.h"
 #include "parser/sqf/sqf_parser.hpp"
 #include "parser/config/config_parser.hpp"
 #include "parser/preprocessor/default.h"
@@ -77,6 +79,7 @@ namespace vh
 #include "vh_front.h"
 #include "vh_vm.h"
 #include "vh_sched.h"
+#include "vh_cfg.h"
 
 static std::string handle(const std::string& verb, const std::vector<std::string>& f)
 {
@@ -89,6 +92,7 @@ static std::string handle(const std::string& verb, const std::vector<std::string
         else if (verb == "trace") { return vh::verb_run(f, true); }
         else if (verb == "start") { return vh::verb_start(f); }
         else if (verb == "eq") { return vh::verb_eq(f); }
+        else if (verb == "cfg") { return vh::verb_cfg(f); }
         else { return "bad-verb"; }
     }
     catch (const std::exception& ex)
